@@ -225,6 +225,9 @@ func c03Random(c *Case) {
 			e = xref.Path{Steps: []*xref.Step{outer}}
 		}
 	}
+	if c.expensive(e, d) {
+		return
+	}
 	src := xref.Render(e)
 	want, ok, why := refNodeSet(e, xref.NewCtx(ctx))
 	if !ok {
